@@ -99,7 +99,11 @@ func DecodePEMPrivateKey(key []byte) (crypto.Signer, error) {
 		if err != nil {
 			return nil, err
 		}
-		return key.(crypto.Signer), nil
+		signer, ok := key.(crypto.Signer)
+		if !ok {
+			return nil, fmt.Errorf("unsupported private key type %T", key)
+		}
+		return signer, nil
 	default:
 		return nil, fmt.Errorf("unsupported block type %s", block.Type)
 	}
